@@ -127,10 +127,9 @@ func inferContracts(fn *ssa.Function) Contracts {
 		var isUpdated bool
 		for _, tables := range nilnessTablesUnderPred {
 			for _, table := range tables {
-				if len(table) == 0 {
-					continue
-				}
-				// Only save the table if it is not empty.
+				// An empty table is saved as well: it stands for the paths on which nothing is
+				// known, and dropping it next to non-empty tables would make the block look as if
+				// only the paths with known nilness reached it.
 				// The block is updated if any of the tables is new, whichever is added last (the
 				// iteration order of the map above is not fixed).
 				var added bool
